@@ -286,15 +286,20 @@ META = {
                    "live entries, recording-slot call logs, the Entry outcome) equals the pool-free ledger recomputed from the history; "
                    "corollaries: pass+block tokens = requested tokens, exactly one completion per passed entry at its first Exit with its own "
                    "error and rt, none for blocked entries, late/double Exit and TraceError on an exited id leave the whole state unchanged, "
-                   "gauge = number of live passed entries >= 0 and 0 when idle. For the recovered-panic path the statement is false on the "
+                   "gauge = number of live passed entries >= 0 and 0 when idle; the account is independent of the interleaving of calls addressed to "
+                   "different entries (schedule_independent). The driver executes the model WITH the context pool (any free object may be handed "
+                   "out); pooled_refines_pool_free / pooled_refines_ledger show pooling is unobservable, and the regenerated table of how the code "
+                   "resets / assigns / aliases pooled fields re-proves pool_discipline on every run. For the recovered-panic path the statement is false on the "
                    "code: witness theorem + partial theorem outside the classified region (known finding panic-pass-gauge). The model is tied "
                    "to the code by running the same op files through api.Entry/TraceError/Exit (virtual clock, pinned P, GC off so that pool "
                    "reuse is deterministic) and the compiled Lean driver and comparing every observation."),
     "level_note": ("Trusted: Lean kernel; axioms propext/Classical.choice/Quot.sound; Go harness (custom slots wrapping the real prepare/stat "
-                   "slots, canonical printing, per-case epoch), virtual util.Clock. Modelled not verified: sync.Pool is abstracted away (the "
-                   "model owns one context per entry; the correspondence generator stresses pool reuse so a regression of the two pool repairs "
-                   "shows as impl != model), gauge as unbounded Int (int32 in the code), the verdict of the built-in rule slots is an input of "
-                   "the theorems (the driver instantiates it for isolation and hotspot rules), sequential histories only (goroutine schedules "
-                   "are C15's race run), panics inside user stat slots / exit handlers are outside the property's domain."),
+                   "slots, canonical printing, per-case epoch), virtual util.Clock; the poolfacts extractor (syntactic, fails closed). Modelled not "
+                   "verified: sync.Pool's implementation (modelled as an arbitrary choice among free objects or a new one), gauge as unbounded Int "
+                   "(int32 in the code), the verdict of the built-in rule slots is an input of the theorems (the driver instantiates it for "
+                   "isolation and hotspot rules). Goroutine schedules: every interleaving of whole API calls is a history covered by the theorems "
+                   "and the account is proved independent of it; interleavings inside concurrent calls are only tested (multi-goroutine soak, "
+                   "final account compared) - data races are C15's, bucket recycling under concurrent writers C09's. Panics inside user stat "
+                   "slots / exit handlers are outside the property's domain."),
     "design_ref": "DESIGN.md 6.C01",
 }
